@@ -144,6 +144,7 @@ def c17_case(draw):
                     st.lists(st.integers(0, 60), min_size=1, max_size=4),
                     st.just(list(range(0, 80, 2))),
                     st.just(list(range(1, 80, 3))))),
+                strip_shows=draw(st.sampled_from([False, False, True])),
                 eol=draw(st.sampled_from(['\n', '\n', '\r\n'])),
                 eol_last=draw(st.booleans()),
                 truncate=draw(st.one_of(st.none(), st.none(),
@@ -203,6 +204,11 @@ def check(case, stats):
                     finishing_stacks=list(s.stacks))
             else:
                 h = HandHistory.from_game_state(s._pkv_game, s, comp, hand=7)
+            if case.get('strip_shows') and terminal:
+                # a history may leave the showdown to the replay, which
+                # tables the known hands itself
+                h.actions = [a for a in h.actions if ' sm' not in a]
+                stats.count('class:history_without_show_lines')
             if case.get('notes'):
                 acts = list(h.actions)
                 for k, pos in enumerate(sorted(case['notes'])):
